@@ -734,6 +734,68 @@ def oracle(ctx, d: Path) -> None:
     res.bump("oracle_base_diagnostics", len(base))
 
 
+HISTORY_WORKER = """
+import json, sys
+from refurb.main import run_refurb
+from refurb.settings import load_settings
+out = []
+for text in json.load(open(sys.argv[1])):
+    open("h.py", "w").write(text)
+    errs = run_refurb(load_settings(["h.py", "--quiet"]))
+    out.append(sorted([e.line, e.column, f"{e.prefix}{e.code}"] if not isinstance(e, str) else [0, 0, e] for e in errs))
+json.dump(out, open(sys.argv[2], "w"))
+"""
+
+
+def history_oracle(ctx, d: Path) -> None:
+    """The comment law across several runs IN ONE PROCESS on the same path, the file edited in between (an editor plugin, a
+    watcher): each run must see the comments the file has NOW — whatever a run remembers about lines must not outlive it."""
+    import subprocess
+    from concurrent.futures import ThreadPoolExecutor
+
+    res = ctx.res
+    rng = ctx.rng("c08-history")
+    base = ["x = int(0)", "y = list()", "z = str('')", "w = 1", "v = bool(True)"]
+    tags = ["", "  # noqa", "  # noqa: FURB123", "  # noqa: FURB112", "  # noqa: FURB999", "  # noqa: FURB123, FURB112"]
+    # every line first without, then with, then without a comment, then the comment moving from even to odd lines; then random edits
+    versions = ["\n".join(base) + "\n", "\n".join(l + "  # noqa" for l in base) + "\n", "\n".join(base) + "\n",
+                "\n".join(l + ("  # noqa: FURB123" if i % 2 == 0 else "") for i, l in enumerate(base)) + "\n",
+                "\n".join(l + ("  # noqa: FURB123" if i % 2 == 1 else "") for i, l in enumerate(base)) + "\n"]
+    for _ in range(5 if ctx.quick else 60):
+        versions.append("\n".join(l + rng.choice(tags) for l in base) + "\n")
+    (d / "pyproject.toml").write_text("")
+    (d / "_plan.json").write_text(json.dumps(versions))
+    (d / "_worker.py").write_text(HISTORY_WORKER)
+    p = subprocess.run([core.PY, "_worker.py", "_plan.json", "_out.json"], cwd=d, capture_output=True, text=True, timeout=1200, env=core.py_env())
+    if p.returncode != 0:
+        res.notes.append(f"history worker failed: {p.stderr[-300:]}")
+        return
+    got = json.loads((d / "_out.json").read_text())
+
+    def fresh_run(iv):
+        i, text = iv
+        sub = d / f"fresh{i}"
+        sub.mkdir()
+        (sub / "pyproject.toml").write_text("")
+        (sub / "h.py").write_text(text)
+        rc, out, err = core.refurb_cli(["h.py", "--quiet"], cwd=sub)
+        return sorted([x["line"], x["col"] - 1, f"{x['prefix']}{x['code']}"] for x in core.parse_plain(out)[0])
+
+    with ThreadPoolExecutor(12) as ex:
+        fresh_all = list(ex.map(fresh_run, enumerate(versions)))
+    for i, (g, fresh) in enumerate(zip(got, fresh_all)):
+        res.case(("history", i), nontrivial=i > 0)
+        res.bump("history_runs")
+        if g != fresh:
+            res.violate(
+                f"run {i + 1} of {len(versions)} in one process on the same (edited) file reports {len(g)} diagnostics, a fresh process {len(fresh)}: the comments of an earlier version are still applied",
+                {"kind": "history-stale-comments", "step": "later-run" if i else "first-run"},
+                {"versions_of_h.py": versions[: i + 1], "in_process_report": g, "fresh_process_report": fresh,
+                 "how": "in ONE python process: for each version write h.py, then refurb.main.run_refurb(refurb.settings.load_settings(['h.py', '--quiet'])); compare the last report with `python -m refurb h.py --quiet` on the last version"},
+            )
+            return
+
+
 def run(ctx) -> None:
     res = ctx.res
     res.rule = (
@@ -761,6 +823,8 @@ def run(ctx) -> None:
     with core.scratch("rv-c08-") as d:
         correspondence(ctx, d)
         oracle(ctx, d)
+    with core.scratch("rv-c08h-") as d:
+        history_oracle(ctx, d)
     res.assumptions += [
         "appending a comment does not change which diagnostics the checks produce (same tokens, hence same tree): checked end to end by the oracle itself, not proved",
         "the physical line of a diagnostic is the one mypy/CPython report (C07); the model's physLines is compared with ast line numbers on every oracle file",
